@@ -23,7 +23,13 @@ STATIC_NAMES = sorted({n for n, _ in S.STATIC})
 VALUELESS = [n for n, v in S.STATIC if v == b""]
 
 
+UTF8_CHARS = ["\u00e9", "\u00df", "\u2603", "\u65e5", "\U0001f600", "a", "z", "0", "-"]
+
+
 def rand_bytes(r, n, alphabet=None):
+    if alphabet == "utf8":
+        # n characters of valid, mostly multi-byte UTF-8 (octet length != character length)
+        return "".join(r.choice(UTF8_CHARS) for _ in range(n)).encode("utf-8")
     if alphabet == "ascii":
         return bytes(r.choice(b"abcdefghijklmnopqrstuvwxyz0123456789-/.:") for _ in range(n))
     return bytes(r.randrange(256) for _ in range(n))
@@ -54,6 +60,8 @@ def rand_value(r, name=None):
             return r.choice(vs)
     if k < 0.85:
         return rand_bytes(r, r.choice([1, 1, 2, 4, 9, 20]), "ascii")
+    if k > 0.93 and k <= 0.988:
+        return rand_bytes(r, r.choice([1, 2, 5, 20, 40]), "utf8")
     if k > 0.988:
         # a long run of one symbol at a power-of-two length (5-, 8- and 13-bit codes): buffer boundaries
         return bytes([r.choice(b"0aX~")]) * r.choice([1023, 1024, 1024, 2048])
@@ -279,7 +287,10 @@ def gen_table(r, k):
             tags.append("many-entries")
             for i in (0, -1, -61, -62, 61 + len(ctx.dyn), 62 + len(ctx.dyn), 63 + len(ctx.dyn), 1, 61, 62):
                 ops.append(("get", i))
-        for _ in range(0 if big else r.randrange(3, 14)):
+        long_history = (not big) and r.random() < 0.04
+        if long_history:
+            tags.append("long-history")
+        for _ in range(0 if big else r.choice([300, 700]) if long_history else r.randrange(3, 14)):
             kk = r.random()
             cur = sum(S.esize(n, v) for n, v in ctx.dyn)
             free = ctx.size - cur
@@ -467,7 +478,10 @@ def gen_dec(r, k):
             cmds.append("dsetsize %s %s" % (d, zs(m)))
             ctx.resize(m)
         alive = True
-        for _ in range(r.choice([1, 2, 3, 5])):
+        long_history = r.random() < 0.03
+        if long_history:
+            tags.append("long-history")
+        for _ in range(r.choice([40, 100]) if long_history else r.choice([1, 2, 3, 5])):
             raw = r.random() < 0.5
             before = ctx.copy()
             c2 = ctx.copy()
@@ -500,12 +514,19 @@ def gen_dec(r, k):
             size = sum(S.esize(n, v) for _, n, v in fields)
             if size == L:
                 tags.append("list-size-at-limit")
-            if r.random() < 0.1 and fields:
+            try:
+                csize = sum(32 + len(n.decode("utf-8")) + len(v.decode("utf-8")) for _, n, v in fields)
+            except UnicodeDecodeError:
+                csize = size
+            if fields and r.random() < (0.5 if csize != size else 0.1):
                 # set the list limit to the exact size, one less, or one more
                 L = size + r.choice([0, -1, 1])
+                if csize != size and r.random() < 0.6:
+                    L = csize + r.choice([0, 1])               # between the character count and the octet count
+                    tags.append("list-limit-character-count")
                 cmds.append("dsetlist %s %s" % (d, zs(L)))
                 tags.append("list-limit-" + ("exact" if L == size else "below" if L < size else "above"))
-            if r.random() < 0.3:
+            if r.random() < (0.02 if long_history else 0.3):
                 blk, tg = corrupt(r, blk, before)
                 tags.append("defect:" + tg)
                 alive = False
@@ -551,6 +572,24 @@ def gen_bomb(r, k):
         cmds = ["dnew %s %s" % (d, zs(max(L, 0))), "ddec %s 1 %s" % (d, hx(blk))]
         cases.append({"family": "dec", "cmds": cmds, "meta": {"total": total, "L": L},
                       "tags": ["bomb", "at-limit" if L == total else "below" if L < total else "above"]})
+    for ci in range(max(2, k // 3)):
+        # text mode, multi-byte UTF-8: the size that counts is the OCTET size; limits between the
+        # character count and the octet count, and exactly at either
+        d = "u%d" % ci
+        nchars = r.choice([5, 40, 300])
+        n, v = rand_bytes(r, r.choice([1, 3]), "utf8"), rand_bytes(r, nchars, "utf8")
+        e = 32 + len(n) + len(v)
+        ec = 32 + len(n.decode()) + len(v.decode())
+        reps = r.choice([0, 1, 10, 200])
+        total, totalc = e * (1 + reps), ec * (1 + reps)
+        L = r.choice([total, total - 1, totalc, totalc + 1, (total + totalc) // 2, total + 1])
+        h = r.random() < 0.5
+        blk = S.rep_literal("inc" if reps else r.choice(["inc", "no", "never"]), n, v, hn=h, hv=h) + S.rep_indexed(62) * reps
+        mode = r.choice([0, 0, 1])
+        cmds = ["dnew %s %s" % (d, zs(max(L, 0))), "ddec %s %d %s" % (d, mode, hx(blk))]
+        cases.append({"family": "dec", "cmds": cmds, "meta": {"octets": total, "chars": totalc, "L": L},
+                      "tags": ["bomb", "multibyte-text", "text-mode" if mode == 0 else "raw-mode",
+                               "at-limit" if L == total else "below" if L < total else "above"]})
     return cases
 
 
@@ -569,7 +608,10 @@ def gen_pair(r, k, shared_pool=None):
             cmds.append("dsetmax %s %s" % (d, zs(dlimit)))
         pool = shared_pool if shared_pool is not None else []
         cur_size = 4096
-        for bi in range(r.choice([1, 2, 3, 4, 6])):
+        long_history = r.random() < 0.04      # drift that needs many steps (wrapping counters, accumulated accounting errors)
+        if long_history:
+            tags.append("long-history")
+        for bi in range(r.choice([40, 150]) if long_history else r.choice([1, 2, 3, 4, 6])):
             # table-size changes between blocks
             sets = []
             if r.random() < 0.45:
@@ -722,11 +764,26 @@ def gen_api(r, k):
             groups.append(line_ids)
         # decoder modes: twin decoders, one raw one text, same blocks (valid text and not)
         d1, d2 = "ar%d" % ci, "at%d" % ci
-        cmds += ["dnew %s 10000" % d1, "dnew %s 10000" % d2]
         ctx = S.Ctx()
         twins = []
+        blks = []
+        limits = [10000]
         for _ in range(r.choice([1, 2, 3])):
             blk, fs, t2 = write_block(r, ctx)
+            blks.append(blk)
+            size = sum(S.esize(n, v) for _, n, v in fs)
+            try:
+                csize = sum(32 + len(n.decode("utf-8")) + len(v.decode("utf-8")) for _, n, v in fs)
+            except UnicodeDecodeError:
+                csize = size
+            limits += [size, size - 1]
+            if csize != size:
+                # a limit the octet size exceeds and the character count does not: both modes must refuse
+                limits += [csize, csize + 1, (csize + size) // 2] * 3
+                tags.append("list-limit-character-count")
+        L = max(0, r.choice(limits)) if r.random() < 0.5 else 10000
+        cmds += ["dnew %s %s" % (d1, zs(L)), "dnew %s %s" % (d2, zs(L))]
+        for blk in blks:
             cmds.append("ddec %s 1 %s" % (d1, hx(blk)))
             cmds.append("ddec %s 0 %s" % (d2, hx(blk)))
             twins.append((len(cmds) - 2, len(cmds) - 1))
